@@ -28,6 +28,16 @@ def _index(x, what='bitarray indices'):
     return f(x)
 
 
+_SSIZE_MAX = (1 << 63) - 1
+
+
+def _ssize(x):
+    """arguments converted to Py_ssize_t by the extension: larger Python ints raise OverflowError"""
+    if x > _SSIZE_MAX or x < -_SSIZE_MAX - 1:
+        raise OverflowError("cannot fit 'int' into an index-sized integer")
+    return x
+
+
 def _adjust(key: slice, n: int):
     """PySlice_Unpack + PySlice_AdjustIndices. Returns (start, stop, step, slicelength)."""
     step = 1 if key.step is None else _index(key.step)
@@ -139,7 +149,7 @@ class bitarray:
         elif isinstance(initializer, bool):
             raise TypeError("cannot create bitarray from 'bool' object")
         elif isinstance(initializer, int):
-            n = _conc(initializer)
+            n = _conc(_ssize(initializer))
             if n < 0:
                 raise ValueError("bitarray length must be >= 0")
             self._n, self._v = n, 0
@@ -441,8 +451,8 @@ class bitarray:
         return r
 
     def __mul__(self, k):
-        k = _conc(_index(k))
-        if k <= 0:
+        k = _conc(_ssize(_index(k)))
+        if k <= 0 or self._n == 0:
             return bitarray._mk(0, 0, self._le)
         with NoTracing():
             n, v = C.cat([(self._n, self._v)] * k)
@@ -458,7 +468,7 @@ class bitarray:
 
     def insert(self, i, x):
         self._wr()
-        i = _index(i)
+        i = _ssize(_index(i))
         n = self._n
         if i < 0:
             i += n
@@ -474,6 +484,7 @@ class bitarray:
 
     def pop(self, i=-1):
         self._wr()
+        _ssize(_index(i))
         if self._n == 0:
             raise IndexError("pop from empty bitarray")
         x = self[i]
@@ -559,7 +570,7 @@ class bitarray:
             return bitarray._mk(self._n, C.invert_all(self._v, self._n), self._le)
 
     def _shift(self, k, left):
-        k = _index(k)
+        k = _ssize(_index(k))
         if k < 0:
             raise ValueError("negative shift count")
         n = self._n
@@ -625,8 +636,8 @@ class bitarray:
         n = self._n
         if start is None or stop is None:
             raise TypeError("'NoneType' object cannot be interpreted as an integer")
-        start = _index(start)
-        stop = n if stop is _MISSING else _index(stop)
+        start = _ssize(_index(start))
+        stop = n if stop is _MISSING else _ssize(_index(stop))
         if start < 0:
             start += n
             if start < 0:
